@@ -3,10 +3,7 @@ CONSTANTS
   MaxDocs = 4
   MaxFaults = 2
   DeadWriterStaysDead = TRUE
-  KillUpdaterOnSaveFail = TRUE
-INVARIANT OkCommitIsComplete
-INVARIANT LastCommitIntact
+  KillUpdaterOnSaveFail = FALSE
 INVARIANT DiskIsSomeCommit
-INVARIANT RegistersMatchDisk
 CONSTRAINT Bound
 CHECK_DEADLOCK FALSE
